@@ -575,7 +575,9 @@ def main():
         for prof in profiles:
             rc, out, bindir = cargo_build(a.repo, [cfg["bin"]], profile=prof, features=features_of(cfg))
             if rc != 0:
-                if re.search(r"(failed to (load|read|parse|select|get)|no matching package|could not find `Cargo.toml`|error: no bin target)", out) and "error[E" not in out:
+                # only a genuine compile error (rustc error code) against the source under test counts as
+                # a broken tie; linker/IO/lockfile/cargo failures are tool errors
+                if "error[E" not in out:
                     raise ToolError("cargo could not build the harness:\n" + out[-3000:])
                 harness_ok = False
                 broken.append("correspondence harness does not build against the current source (%s): %s" % (prof, out.strip()[-1500:]))
